@@ -7,6 +7,7 @@ import (
 	"go/token"
 	"go/types"
 	"math/big"
+	"os"
 	"sort"
 	"strings"
 	"time"
@@ -943,6 +944,9 @@ func (vc *FuncVC) localNamesAt(fn *ssa.Function, at *ssa.BasicBlock, upto ssa.In
 						// the variable lives in memory (address taken): its cell is the source of truth
 						continue
 					}
+				}
+				if os.Getenv("GOVC_TRACE_IDENT") == id.Name {
+					fmt.Fprintf(os.Stderr, "debugref %s at %s block %d -> %s (%T)\n", id.Name, vc.w.fset.Position(x.Pos()), b.Index, x.X.Name(), x.X)
 				}
 				out[id.Name] = localRef{x.X, x.IsAddr}
 			case *ssa.Alloc:
